@@ -191,12 +191,13 @@ ypr_substmt(struct lys_ypr_ctx *pctx, enum ly_stmt substmt, uint8_t substmt_inde
     }
 
     LEVEL++;
-    yprp_extension_instances(pctx, substmt, substmt_index, exts, &extflag);
 
-    /* argument as yin-element */
+    /* argument as yin-element, it must be the first child */
     if (lys_stmt_flags(substmt) & LY_STMT_FLAG_YIN) {
         ypr_yin_arg(pctx, lys_stmt_arg(substmt), text);
     }
+
+    yprp_extension_instances(pctx, substmt, substmt_index, exts, &extflag);
 
     LEVEL--;
     ypr_close(pctx, lys_stmt_str(substmt), extflag);
